@@ -227,6 +227,14 @@ class Report:
     def finish(self):
         os.makedirs(EVIDENCE, exist_ok=True)
         cov = dict(self.coverage)
+        if self.level == 'model_checking':
+            for k in ('states', 'transitions', 'traces_validated_against_impl'):
+                cov.setdefault(k, 0)
+            cov.setdefault('samples', [])
+        if self.level == 'translation_validation':
+            for k in ('programs', 'disagreements_checked'):
+                cov.setdefault(k, 0)
+            cov.setdefault('samples', [])
         cov['known_findings_printed'] = self.known
         cov['inconclusive'] = self.inconclusive
         cov['parts'] = self.parts
